@@ -8,7 +8,7 @@ static bool safech(unsigned char c) { return isalnum(c) || strchr(".@%+/=:-[]", 
 static std::string ns(const std::string &s) { return std::to_string(s.size()) + ":" + s + ","; }
 
 struct Case { std::string name, daemon, input; std::map<std::string, std::string> env; std::string sender; std::vector<std::string> rcpts; std::string body, body2; bool has_body2 = false; std::string morercpt; bool has_morercpt = false; bool partial_ok = false; bool framing_check = true; std::vector<int> want_codes; bool wellformed = true; int qstatus = 0; std::string qtext; bool qcrash = false;
-              std::vector<std::string> bodies; std::vector<int> expect_multi; /* per message: 0 ack, 5 permanent */ int expect_class = 0; /* 0 success, 4 temporary, 5 permanent, -1 protocol violation (no acknowledgement at all) */ int databytes = 0; bool realqueue = false; bool cut = false; };
+              std::vector<std::string> bodies; std::vector<int> expect_multi; /* per message: 0 ack, 5 permanent */ int expect_class = 0; /* 0 success, 4 temporary, 5 permanent, -1 protocol violation (no acknowledgement at all) */ int databytes = 0; bool realqueue = false; bool cut = false; std::string databytes_text; bool databytes_env = false; /* literal limit */ std::string rcpthosts; bool is_session = false; std::vector<std::string> sess_envs, sess_bodies; };
 
 static std::string smtp_session(const std::string &helo, const std::string &sender, const std::vector<std::string> &rc, const std::string &body_lf, bool quit = true) {
   std::string s = "HELO " + helo + "\r\nMAIL FROM:<" + sender + ">\r\n"; for (auto &r : rc) s += "RCPT TO:<" + r + ">\r\n";
@@ -38,6 +38,11 @@ static std::vector<Case> make_cases(const Config &cfg) {
       for (int delta : {-1, 0, 1}) for (int viaenv : {0, 1}) { Case c = base(d); if (c.daemon == "qmqpd") continue; int lim = 40; std::string b(lim + delta - 1, 'x'); b += "\n"; c.body = b; c.databytes = viaenv ? -lim : lim; c.expect_class = delta > 0 ? 5 : 0;
         c.input = c.daemon == "smtpd" ? smtp_session("peer.example", c.sender, rc, b) : qmtp_session(c.sender, rc, b); c.name = std::string(d) + " body=databytes" + (delta < 0 ? "-1" : delta ? "+1" : "") + (viaenv ? " (DATABYTES env)" : ""); v.push_back(c);
         if (c.daemon == "qmtpd") { Case e = c; e.input = ns("\r" + std::string(lim + delta - 1, 'x') + "\r\n") + ns(c.sender) + ns(ns(rc[0]) + ns(rc[1])); e.name += " CRLF-encoding"; v.push_back(e); } }
+      // limits up to 2^32-1 (the limit is kept in an unsigned int and compared after adding 1; larger values are outside what the type can hold
+      // and are not judged): a 20-byte message is below every one of them
+      for (const char *lim : {"4294967295", "4294967294", "2147483647", "2147483648", "0"}) for (int viaenv : {0, 1}) { Case c = base(d); if (c.daemon == "qmqpd") continue;
+        c.databytes_text = lim; c.databytes_env = viaenv; c.expect_class = 0; c.name = std::string(d) + " databytes=" + lim + (viaenv ? " (DATABYTES env)" : " (control/databytes)") + ", small message"; v.push_back(c);
+        if (c.daemon == "qmtpd") { Case e = c; e.input = ns("\r" + std::string("Subject: t\r\n\r\nhello\r\n.dot line\r\n")) + ns(c.sender) + ns(ns(rc[0]) + ns(rc[1])); e.name += " CRLF-encoding"; v.push_back(e); } }
       // hop counting (smtpd): 98..101 Received / Delivered-To fields in mixed case
       for (int hops : {98, 99, 100, 101}) { Case c = base("smtpd"); if (std::string(d) != "smtpd") break; std::string b; for (int i = 0; i < hops; i++) b += (i % 3 == 0 ? "Received: x\n" : i % 3 == 1 ? "DELIVERED-TO: y\n" : "rEcEiVeD: z\n"); b += "\nbody\n"; c.body = b; c.input = smtp_session("peer.example", c.sender, rc, b); c.expect_class = hops >= 100 ? 5 : 0; c.name = "smtpd " + std::to_string(hops) + " hop fields"; v.push_back(c); }
       // address lengths
@@ -109,6 +114,29 @@ static std::vector<Case> make_cases(const Config &cfg) {
                              {"r@comment.example", 553, 553}, {"r@xzextra.example", 553, 553}, {"r@sub.zextra.example", 553, 553}, {"r@y.x.Wild.Example", 250, 553}, {"r", 250, 250}, {"r@a.example.", 553, 553}, {"r@other.example", 553, 553}};
       for (int variant = 0; variant < 2; variant++) { Case c = base(d); c.name = std::string("smtpd with morercpthosts.cdb built by qmail-newmrh from ") + (variant ? "an empty source" : "a mixed source"); c.morercpt = variant ? std::string("") : std::string("ZExtra.Example\n.Wild.Example \t\n# comment.example\n#comment.example\nthird.example");
         c.input = "HELO x\r\nMAIL FROM:<s@src.example>\r\n"; for (auto &r : rs) { c.input += std::string("RCPT TO:<") + r.addr + ">\r\n"; c.want_codes.push_back(variant ? r.with_empty : r.with_list); } c.input += "QUIT\r\n"; c.has_morercpt = true; v.push_back(c); }
+    } else if (fam == "sessions") {
+      // every sequence of envelope commands that ends in DATA, up to the length bound, on one connection: the reference is the RFC 5321
+      // transaction state (MAIL starts a transaction and clears the recipients; RSET, HELO and a finished DATA end it); each acknowledged
+      // message must be queued with exactly the sender of its own MAIL and the recipients accepted since then
+      if (std::string(d) != "smtpd") continue;
+      static const char *cmdtab[] = {"MAIL FROM:<s1@src.example>", "MAIL FROM:<s2@src.example>", "RCPT TO:<a@a.example>", "RCPT TO:<b@b.example>", "RCPT TO:<c@refused.example>", "RSET", "HELO again.example", "DATA"};
+      int maxl = cfg.geti("maxlen", 5);
+      for (int n = 1; n <= maxl; n++) { std::vector<int> idx(n, 0); idx[n - 1] = 7; for (;;) {
+          Case c = base(d); c.is_session = true; c.rcpthosts = "a.example\nb.example\n"; c.input = "HELO first.example\r\n"; c.want_codes = {220, 250}; c.name = "smtpd session [";
+          bool seenmail = false; std::string from; std::vector<std::string> rcp; int nmsg = 0;
+          for (int i = 0; i < n; i++) { int k = idx[i]; c.input += std::string(cmdtab[k]) + "\r\n"; c.name += std::string(i ? " | " : "") + cmdtab[k];
+            switch (k) {
+              case 0: case 1: seenmail = true; from = k ? "s2@src.example" : "s1@src.example"; rcp.clear(); c.want_codes.push_back(250); break;
+              case 2: case 3: if (!seenmail) c.want_codes.push_back(503); else { rcp.push_back(k == 2 ? "a@a.example" : "b@b.example"); c.want_codes.push_back(250); } break;
+              case 4: c.want_codes.push_back(seenmail ? 553 : 503); break;
+              case 5: case 6: seenmail = false; c.want_codes.push_back(250); break;
+              case 7: if (!seenmail || rcp.empty()) { c.want_codes.push_back(503); break; }
+                { ++nmsg; std::string b = "Subject: m" + std::to_string(nmsg) + "\n\nbody of message " + std::to_string(nmsg) + "\n"; std::string e = "F" + from + std::string(1, '\0'); for (auto &r : rcp) e += "T" + r + std::string(1, '\0'); e += std::string(1, '\0');
+                  c.sess_envs.push_back(e); c.sess_bodies.push_back(b); c.input += "Subject: m" + std::to_string(nmsg) + "\r\n\r\nbody of message " + std::to_string(nmsg) + "\r\n.\r\n"; c.want_codes.push_back(354); c.want_codes.push_back(250); seenmail = false; }
+                break;
+            } }
+          c.input += "QUIT\r\n"; c.want_codes.push_back(221); c.name += "]"; v.push_back(c);
+          int i = n - 2; while (i >= 0 && ++idx[i] == 8) { idx[i] = 0; i--; } if (i < 0) break; } }
     } else if (fam == "multi") {
       // several messages on one QMTP connection with a size limit: the limit applies to each message separately
       if (std::string(d) != "qmtpd") continue;
@@ -140,8 +168,10 @@ struct C07 : Scenario {
     int hi = w.ex->choose_n((int) ((cases.size() + 239) / 240), BK_FREE), lo = w.ex->choose_n(std::min<int>(240, (int) cases.size()), BK_FREE);
     c = &cases[std::min<size_t>((size_t) hi * 240 + lo, cases.size() - 1)];
     if (!c->realqueue) w.exectab["/var/qmail/bin/qmail-queue"] = "@queue";
+    if (!c->rcpthosts.empty()) k.put_file("/var/qmail/control/rcpthosts", c->rcpthosts);
+    if (!c->databytes_text.empty() && !c->databytes_env) k.put_file("/var/qmail/control/databytes", c->databytes_text + "\n");
     if (c->databytes > 0) k.put_file("/var/qmail/control/databytes", std::to_string(c->databytes) + "\n");
-    std::vector<std::string> env; for (auto &e : c->env) env.push_back(e.first + "=" + e.second); if (c->databytes < 0) env.push_back("DATABYTES=" + std::to_string(-c->databytes));
+    std::vector<std::string> env; for (auto &e : c->env) env.push_back(e.first + "=" + e.second); if (c->databytes < 0) env.push_back("DATABYTES=" + std::to_string(-c->databytes)); if (!c->databytes_text.empty() && c->databytes_env) env.push_back("DATABYTES=" + c->databytes_text);
     if (c->has_morercpt) {
       k.put_file("/var/qmail/control/rcpthosts", "a.example\n"); k.put_file("/var/qmail/control/morercpthosts", c->morercpt);
       std::map<int, int> nf; nf[0] = QmailEnv::nullfd(w); nf[1] = QmailEnv::nullfd(w); nf[2] = QmailEnv::nullfd(w);
@@ -221,6 +251,25 @@ struct C07 : Scenario {
     }
     w.counters["multi_message_connections"]++; w.outcome_hash = fnvs(fnvs(5, c->name), o); w.description = c->name + " -> " + std::string(letters.begin(), letters.end());
   }
+  void end_session(World &w) {
+    const std::string &o = out->data; std::string key = "C07:" + c->name;
+    std::vector<int> codes; { size_t i = 0; while (i < o.size()) { size_t e = o.find("\r\n", i); if (e == std::string::npos) break; if (e >= i + 3 && (e == i + 3 || o[i + 3] == ' ')) codes.push_back(atoi(o.substr(i, 3).c_str())); i = e + 2; } }
+    w.counters["sessions"]++;
+    std::string cs, ws; for (int x : codes) cs += std::to_string(x) + " "; for (int x : c->want_codes) ws += std::to_string(x) + " ";
+    // the queue program's runs are the ground truth for "what was queued"
+    std::vector<size_t> ok; for (size_t i = 0; i < runexit.size(); i++) if (runexit[i] == 0 && envelope_complete(runenv[i])) ok.push_back(i);
+    size_t acks = 0; for (size_t i = 0; i + 1 < codes.size(); i++) if (codes[i] == 354 && codes[i + 1] / 100 == 2) acks++;
+    if (acks != ok.size()) { w.soft_violation(key, c->name + ": " + std::to_string(acks) + " messages acknowledged, " + std::to_string(ok.size()) + " committed by the queue program (replies " + cs + ")"); return; }
+    if (codes != c->want_codes) { w.soft_violation(key + ":replies", c->name + ": reply codes " + cs + "; the transaction rules of RFC 5321 / qmail-smtpd(8) give " + ws); return; }
+    if (ok.size() != c->sess_envs.size()) { w.soft_violation(key, c->name + ": " + std::to_string(ok.size()) + " messages queued, expected " + std::to_string(c->sess_envs.size())); return; }
+    for (size_t m = 0; m < ok.size(); m++) {
+      if (runenv[ok[m]] != c->sess_envs[m]) { w.soft_violation(key + ":envelope", c->name + ": message " + std::to_string(m + 1) + " was acknowledged and queued with envelope [" + esc(runenv[ok[m]], 200) + "]; its transaction (the last MAIL and the recipients accepted since) is [" + esc(c->sess_envs[m], 200) + "]"); return; }
+      std::string why; size_t rl = received_ok(runmsg[ok[m]], "SMTP", &why);
+      if (!rl || runmsg[ok[m]].substr(rl) != c->sess_bodies[m]) { w.soft_violation(key + ":content", c->name + ": message " + std::to_string(m + 1) + " queued with different content [" + esc(runmsg[ok[m]], 200) + "]"); return; }
+      w.counters["commits_verified"]++; }
+    w.counters["transaction_sequences"]++; w.counters[ok.empty() ? "sessions_without_message" : "acknowledged"]++;
+    w.outcome_hash = fnvs(fnvs(5, c->name), o); w.description = c->name + " -> " + cs;
+  }
   void at_end(World &w) override {
     if (c->has_morercpt) {
       if (!out) { w.violation("C08:no-session", "the SMTP daemon was never started"); return; }
@@ -230,6 +279,7 @@ struct C07 : Scenario {
       for (size_t i = 0; i < c->want_codes.size(); i++) if (codes[3 + i] != c->want_codes[i]) { w.soft_violation("C08:" + c->name + ":rcpt" + std::to_string(i + 1), c->name + ": recipient number " + std::to_string(i + 1) + " of the session was answered " + std::to_string(codes[3 + i]) + ", the documented recipient-host rule gives " + std::to_string(c->want_codes[i]) + " (session: " + esc(c->input, 400) + ")"); return; }
       w.counters["morercpthosts_recipients_checked"] += c->want_codes.size(); w.outcome_hash = fnvs(9, out->data); w.description = c->name; return;
     }
+    if (c->is_session) { end_session(w); return; }
     const std::string &o = out->data; std::string key = "C07:" + c->name;
     Proc *dp = nullptr; for (auto &pp : w.procs) if (pp && pp->vpid == dpid) dp = pp.get();
     w.counters["sessions"]++;
